@@ -244,14 +244,98 @@ def sav_tie_profile(rng, dt, alts):
     return mode, out[:10]
 
 
+def sav_scores(prof):
+    """exact satisfaction scores and, per alternative, the multiset of (multiplicity, size) terms (generator-side
+    selection of inputs only; never used for judging)"""
+    from fractions import Fraction
+    sc, terms = {}, {}
+    for s, k in prof:
+        for a in s:
+            sc[a] = sc.get(a, 0) + Fraction(k, len(s))
+            terms.setdefault(a, []).append((k, len(s)))
+    return sc, terms
+
+
+def diff_denominator_tie(prof):
+    """two best alternatives tie exactly although their scores are sums of different terms"""
+    sc, terms = sav_scores(prof)
+    if not sc:
+        return False
+    best = max(sc.values())
+    w = [a for a in sc if sc[a] == best]
+    for a, b in itertools.combinations(w, 2):
+        ta, tb = sorted(terms[a]), sorted(terms[b])
+        if ta != tb and len({d for _, d in ta} | {d for _, d in tb}) >= 2:
+            return True
+    return False
+
+
+SAV_SEED_TIES = [   # 1/2 + 1/3 + 2/3 = 1/2 + 2/3 + 1/3 = 3/2 (alternatives 1 and 3), and a variant
+    [([1, 3], 1), ([1, 2, 4], 1), ([1, 3, 4], 2), ([2, 3, 4], 1)],
+    [([1], 1), ([2], 2), ([1, 2, 3], 1), ([1, 3, 4], 3)],
+]
+
+
+def gen_sav_exact_ties(rng, count):
+    """approval profiles with an exact tie between sums over different denominators; each one is emitted in both
+    insertion orders and in both forms (incomplete one-class toi, complete two-class toc)"""
+    out = []
+    found = []
+    for base in SAV_SEED_TIES:
+        found.append((4, base))
+    tries = 0
+    while len(found) < count and tries < 200000:
+        tries += 1
+        m = rng.choice([3, 4, 4, 5, 5, 6, 7, 8])
+        alts = list(range(1, m + 1))
+        prof = []
+        for _ in range(rng.randint(3, 6)):
+            s = rng.sample(alts, rng.randint(1, min(m, 4)))
+            if not any(set(s) == set(t) for t, _ in prof):
+                prof.append((s, rng.randint(1, 4)))
+        if diff_denominator_tie(prof):
+            found.append((m, prof))
+    for m, prof in found:
+        alts = list(range(1, m + 1))
+        c = rng.choice([1, 1, 2, 3, 7])                 # scaling all multiplicities keeps the tie
+        perm = rand_perm(rng, alts)
+        ren = dict(zip(alts, perm)) if rng.random() < 0.5 else {a: a for a in alts}
+        prof = [([ren[a] for a in s], k * c) for s, k in prof]
+        for order in (prof, prof[::-1]):
+            out.append(all_case(3, alts, [([list(s)], k) for s, k in order], gen="sav-exact-tie-diff-denoms"))
+            two = []
+            for s, k in order:
+                rest = [x for x in alts if x not in s]
+                two.append(([list(s), rest] if rest else [list(s)], k))
+            out.append(all_case(2, alts, two, gen="sav-exact-tie-diff-denoms"))
+    return out
+
+
+def gen_soi_kapp(rng, count):
+    """soi profiles with ballots of different lengths, alternatives covered by different numbers of voters:
+    k-approval with k >= m counts every listed alternative (k = m..m+2 are among the ks of every case)"""
+    out = []
+    for _ in range(count):
+        m = rng.randint(2, 8)
+        alts = list(range(1, m + 1))
+        prof = []
+        for _ in range(rng.randint(2, 8)):
+            p = rand_perm(rng, alts)
+            prof.append(([[a] for a in p[: rng.randint(1, m)]], rng.choice([1, 1, 2, 3, rng.randint(1, 50)])))
+        out.append(all_case(1, alts, prof, gen="soi-mixed-lengths"))
+    return out
+
+
 def gen_random(tier, seed):
     rng = random.Random(1000003 * seed + 6)
     out = []
+    out.extend(gen_sav_exact_ties(rng, 150 if tier == "quick" else 1500))
+    out.extend(gen_soi_kapp(rng, 400 if tier == "quick" else 5000))
     n = 2500 if tier == "quick" else 40000
     for i in range(n):
         m = rng.choice([1, 2, 2, 3, 3, 4, 4, 5, 5, 6, 7, 8])
         alts = rng.sample(range(1, 40), m) if rng.random() < 0.3 else list(range(1, m + 1))
-        dt = rng.choice([0, 0, 0, 1, 1, 2, 2, 3])
+        dt = rng.choice([0, 0, 0, 0, 1, 1, 2, 2, 3])
         kind, prof = tie_profile(rng, dt, alts)
         out.append(all_case(dt, alts, prof, gen=kind))
     n = 1200 if tier == "quick" else 20000
@@ -372,6 +456,23 @@ def stats(c, r, m):
     out = ["type=%s" % DT[ip[0]], "m=%d" % len(ip[1]), "ballots=%s" % (len(ip[4]) if len(ip[4]) <= 3 else ">3")]
     if c["tags"].get("gen"):
         out.append("gen=" + c["tags"]["gen"])
+    if ip[0] == 1:
+        cover = {}
+        for o, k in ip[4]:
+            for cl in o:
+                cover[cl[0]] = cover.get(cl[0], 0) + k
+        lens = {len(o) for o, _ in ip[4]}
+        if len(set(cover.values())) > 1 or len(cover) < len(ip[1]):
+            out.append("soi: alternatives listed by different numbers of voters (k-approval k=m..m+2 applied)")
+        if len(lens) > 1:
+            out.append("soi: ballot lengths differ")
+    if ip[0] in (2, 3):
+        try:
+            if diff_denominator_tie([(o[0], k) for o, k in ip[4]]):
+                out.append("approval-shaped: exact top tie between sums over different denominators (%s)"
+                           % ("two-class complete" if ip[0] == 2 else "one-class incomplete"))
+        except Exception:
+            pass
     mm = m[0] if c["op"] == "c06.all" else [m[0]]
     for nm, mi in zip(_names(c), mm):
         nm = nm.split(" ")[0]
